@@ -411,6 +411,8 @@ def run(tier, seed, result):
                 closure = closure and st['closure']
                 notes.append('async=%s ah=%s layout=%d: %s' % (
                     is_async, ah, layout, st))
+    from . import c05_sched
+    notes.append(c05_sched.run(tier, seed, result))
     result.assumptions += [
         'background handler tasks are run to completion (FIFO) before '
         'comparison',
@@ -424,7 +426,9 @@ def run(tier, seed, result):
              'state every text event (names x ids {None,0,1,7} x 14 return '
              'values) is sent from every (transport, namespace), connected '
              'or not, and handler log + ACK frames on ALL transports are '
-             'compared with the ledger',
+             'compared with the ledger; E2: every interleaving of two '
+             'clients\' packet streams with suspended disconnect / event '
+             'handlers on AsyncServer',
         explanation=' | '.join(notes) + (
             '' if closure else ' | depth cap hit: all histories up to the '
             'cap were covered'),
